@@ -100,6 +100,15 @@ def run(ctx):
             fill = []
             for i in range(K - 1):
                 fill += ['repl 1', 'hold 1 %d' % (2 + i)]
+            # exhaustion is reported EVERY time: all K slots held by guards of K different eras / objects, an acquisition throws, the retry in
+            # the same era throws again (or, if it succeeds, protects); after releasing the oldest guard the next acquisition protects
+            fillK = []
+            for i in range(K):
+                fillK += ['repl %d' % (i % 2), 'hold %d %d' % (i % 2, i)]
+            x = K   # first guard beyond the K slots (slots = K + 2 guards exist)
+            jobs.append((cfg, [fillK + ['repl 1', 'hold 1 %d' % x, 'hold 1 %d' % x, 'repl 1', 'repl 1', 'deref %d' % x, 'hold 1 %d' % x, 'repl 1', 'deref %d' % x]], 'opseq', 1, ctx['seed'], ()))
+            jobs.append((cfg, [fillK + ['repl 1', 'hold 1 %d' % x, 'drop 0', 'hold 1 %d' % x, 'repl 1', 'repl 1', 'deref %d' % x] + ['deref %d' % i for i in range(1, K)]], 'opseq', 1, ctx['seed'], ()))
+            jobs.append((cfg, [fillK + ['repl 0', 'holdeq 0 %d' % x, 'holdeq 0 %d' % x, 'repl 0', 'repl 0', 'deref %d' % x]], 'opseq', 1, ctx['seed'], ()))
             for acq in ('holdeq 1 1', 'hold 1 1'):
                 jobs.append((cfg, [['hold 0 0', 'copy 0 1'] + fill + ['repl 1', acq, 'drop 1', 'deref 0', 'repl 0', 'deref 0', 'drop 0', 'hold 0 0', 'deref 0']], 'opseq', 1, ctx['seed'], ()))
                 jobs.append((cfg, [['hold 0 0', 'copy 0 1'] + fill + ['repl 1', acq, 'copy 0 1', 'drop 1', 'deref 0', 'repl 0', 'deref 0']], 'opseq', 1, ctx['seed'], ()))
